@@ -448,7 +448,7 @@ def main():
                     cov["evaluations"] = cov.get("evaluations", 0) + int(j.get("cases") or 0)
                     cov["distinct_nontrivial"] = cov.get("distinct_nontrivial", 0) + int(j.get("distinct_nontrivial") or 0)
                     cov["rule"] = cfg.get("rule", b.get("bound", ""))
-                    cov["exhaustive"] = True
+                    cov["exhaustive"] = bool(cfg.get("exhaustive", True))
                     cov["samples"] += [{"driver": b["driver"], "case": x} for x in (j.get("samples") or [])[:5]]
                 # known-finding candidates classified by the driver: excused only while the finding is OPEN in known_findings.json
                 for fid, cand in (j.get("kf_candidates") or {}).items():
